@@ -552,9 +552,11 @@ hwloc_get_area_memlocation_by_nodeset(hwloc_topology_t topology, const void *add
     return -1;
   }
 
-  if (!len)
-    /* nothing to do */
+  if (!len) {
+    /* nothing to do, the documentation says the set is emptied */
+    hwloc_bitmap_zero(nodeset);
     return 0;
+  }
 
   if (topology->binding_hooks.get_area_memlocation)
     return topology->binding_hooks.get_area_memlocation(topology, addr, len, nodeset, flags);
